@@ -48,18 +48,19 @@ class XP(ASTNode):
     one: ASTNode | None = None
     items: tuple[ASTNode, ...] = ()
     child: ASTNode | None = None
+    more: tuple[ASTNode, ...] = ()      # a second tuple field, declared after the first
 
 
 U = Universe("c07", [
     C("XL", XL, [F("v", PROP, alphabet=(0,))]),
     C("XS", XS, [F("v", PROP, alphabet=(0,))], bases=("XL",)),
-    C("XP", XP, [F("one", OPT), F("items", VAR, maxlen=3), F("child", OPT)]),
+    C("XP", XP, [F("one", OPT), F("items", VAR, maxlen=3), F("child", OPT), F("more", VAR, maxlen=2)]),
 ])
 
-FIELDS_FULL = [None, "items", "child", "one", "nosuch"]
+FIELDS_FULL = [None, "items", "child", "one", "more", "nosuch"]
 INDICES_FULL = [None, 0, 1, 12]
 CLASSES_FULL = [None, "XL", "XS", "XP", "ASTNode"]
-FIELDS_RED = [None, "items", "child"]
+FIELDS_RED = [None, "items", "child", "more"]
 INDICES_RED = [None, 0, 1]
 CLASSES_RED = [None, "XL", "XP"]
 FIELDS_MIN = [None, "items"]
@@ -75,8 +76,8 @@ def S():
     return ("XS", (("v", 0),))
 
 
-def P(one=None, items=(), child=None):
-    return ("XP", (("one", one), ("items", tuple(items)), ("child", child)))
+def P(one=None, items=(), child=None, more=()):
+    return ("XP", (("one", one), ("items", tuple(items)), ("child", child), ("more", tuple(more))))
 
 
 def shaped_trees():
@@ -84,7 +85,7 @@ def shaped_trees():
     return [
         L(),
         S(),
-        P(one=L(), items=[S(), L()], child=P(child=L())),
+        P(one=L(), items=[S(), L()], child=P(child=L()), more=[L(), P(items=[L(), L(), S()], more=[S(), L()])]),
         P(items=[P(items=[P(items=[L(), S()])]), L()], child=P(one=S(), child=P(child=L()))),
         wide,
         P(one=P(one=P(one=L())), items=[P(items=[wide])], child=L()),
